@@ -141,6 +141,10 @@ func runSelftestEntry(e SelftestEntry, repo string, opts verifyOpts) selftestRes
 				continue
 			}
 			for _, o := range fr.Obls {
+				if fc.NotClaim != "" || unclaimedClass(fc, oblClass(o.Name)) {
+					// not claimed on the unchanged tree either: says nothing about the edit
+					continue
+				}
 				if o.Status != "discharged" && !(e.Kind == "mustpass" && knownOpen[o.Name]) {
 					failed = append(failed, o.Name)
 				}
